@@ -18,12 +18,12 @@ MIX0 = ("keys", "values", "items", "eq", "popitem", "clear")
 BOUNDS = {
     "quick": {"capacities": [1, 2, 3], "keys": "capacity+1 (a..d)", "values": "unique per store",
               "core_history_len": {"1": 6, "2": 6, "3": 5}, "core_ops": list(CORE) + list(CORE0),
-              "mixin_history_len": 4, "mixin_ops": list(MIX) + list(MIX0),
+              "mixin_history_len": {"1": 4, "2": 4, "3": 4}, "mixin_ops": list(MIX) + list(MIX0),
               "random": {"count": 3000, "len": "6..40", "capacities": "1..8", "keys": "ints/strs/tuples/None, <=10",
                          "values": "small alphabet with repeats"}},
     "thorough": {"capacities": [1, 2, 3], "keys": "capacity+1 (a..d)", "values": "unique per store",
-                 "core_history_len": {"1": 7, "2": 7, "3": 6}, "core_ops": list(CORE) + list(CORE0),
-                 "mixin_history_len": 5, "mixin_ops": list(MIX) + list(MIX0),
+                 "core_history_len": {"1": 7, "2": 6, "3": 6}, "core_ops": list(CORE) + list(CORE0),
+                 "mixin_history_len": {"1": 5, "2": 5, "3": 4}, "mixin_ops": list(MIX) + list(MIX0),
                  "random": {"count": 60000, "len": "6..60", "capacities": "1..8", "keys": "<=10", "values": "repeats"}},
 }
 RULE = ("All operation sequences up to the stated length for every capacity, over capacity+1 keys, up to renaming of "
@@ -42,7 +42,7 @@ def cases(tier, seed):
         n = n[str(cap)] if isinstance(n, dict) else n
         for ops in histories(n, CORE, CORE0, KEYS[:cap + 1]):
             yield {"kind": "history", "cap": cap, "ops": ops}
-        for ops in histories(b["mixin_history_len"], MIX, MIX0, KEYS[:cap + 1]):
+        for ops in histories(b["mixin_history_len"][str(cap)], MIX, MIX0, KEYS[:cap + 1]):
             if any(o[0] not in ("set", "get", "del") for o in ops):   # the rest is in the core family
                 yield {"kind": "history", "cap": cap, "ops": ops}
     rng = random.Random(seed)
@@ -133,7 +133,6 @@ def run_case(case):
             op = o[0]
             k = key(o[1]) if len(o) > 1 else None
             v = o[2] if len(o) > 2 else f"v{i}"
-            sc = f"lru/{op}"
             if op == "set":
                 stored = True
                 _store(c, ref, cap, k, v, "lru/store")
